@@ -21,6 +21,7 @@ import time
 import vlib
 
 I64_MIN, I64_MAX = -2**63, 2**63 - 1
+LADDER_SIZES = [0, 1, 2, 3, 5]          # numbers of elif branches generated for if/elif ladders
 CONSTRUCTS = ["several functions per program (int params, int or None result)", "calls f(..) as assignment RHS / println argument / "
               "statement / return value, with positional, keyword (in and out of declaration order) and mixed call-free arguments",
               "return / return e (also early, in branches)", "int literal", "bool literal", "variable", "paren", "unary -", "not", "+ - * // %", "== != < <= > >=",
@@ -556,6 +557,10 @@ class Gen:
         if r < 0.58:
             e = self.top_int(3) if rng.random() < 0.6 else self.bool_expr(3)
             return [("print", self.fin(e))]
+        if r < 0.64 and depth > 0:
+            lad = self.ladder(depth, in_loop)
+            if lad is not None:
+                return lad
         if r < 0.72 and depth > 0:
             c = self.fin(self.bool_expr(2))
             th = self.block(depth - 1, in_loop, rng.randint(1, 2))
@@ -592,6 +597,30 @@ class Gen:
             return [("pass",)]
         e = self.top_int(3) if rng.random() < 0.5 else self.bool_expr(3)
         return [("print", self.fin(e))]
+
+    def ladder(self, depth, in_loop):
+        """if/elif ladder with 0,1,2,3 or 5 elifs whose conditions OVERLAP (descending / ascending thresholds or divisibility
+        tests on one anchored int variable): which branch runs depends on the order the conditions are tested in"""
+        rng = self.rng
+        vs = self.vars_of("int", need_anch=True)
+        if not vs:
+            return None
+        v = ("var", rng.choice(vs))
+        n = rng.choice(LADDER_SIZES) + 1
+        kind = rng.choice(["desc", "asc", "mod"])
+        if kind == "desc":
+            conds = [("bin", ">=", v, ("int", t)) for t in sorted(rng.sample(range(-9, 12), n), reverse=True)]
+        elif kind == "asc":
+            conds = [("bin", "<", v, ("int", t)) for t in sorted(rng.sample(range(-8, 13), n))]
+        else:
+            conds = [("bin", "==", ("bin", "%", v, ("int", m)), ("int", 0)) for m in rng.sample([2, 3, 4, 5, 6, 7, 8, 9], n)]
+        conds = [c if c[3][1] >= 0 or c[1] == "==" else ("bin", c[1], c[2], ("un", "neg", ("int", -c[3][1]))) for c in conds]
+        self.ladders = getattr(self, "ladders", 0) + 1
+        mk = lambda i: [("print", ("int", 500 + i))] if rng.random() < 0.7 or depth < 2 else self.block(depth - 1, in_loop, 1)
+        th = mk(0)
+        elifs = [(self.fin(c), mk(i + 1)) for i, c in enumerate(conds[1:])]
+        el = mk(n) if rng.random() < 0.6 else None
+        return [("if", self.fin(conds[0]), th, elifs, el)]
 
     def while_loop(self, depth):
         """terminating by construction: a dedicated counter decremented first thing in the body"""
@@ -749,7 +778,33 @@ def corpus():
              helpers=[(1, [0, 1], True, [("if", b(">", v(1), i(3)), [("ret", b("-", v(1), v(0)))], [], None), ("ret", b("-", b("*", v(0), i(10)), v(1)))]),
                       (2, [0], False, [("print", b("+", v(0), i(100))), ("if", b(">", v(0), i(0)), [("ret", None)], [], None), ("print", i(0))])]),
     ]
-    return cs
+    return cs + ladder_corpus()
+
+
+def ladder_corpus():
+    """threshold ladders with 0,1,2,3,5 elifs, one function per size, called with an argument in the overlap of the last two
+    conditions; `expect` is the line the FIRST true condition prints (computed here, independently of Coq and of the compiler):
+    the instance of C01_elif_first_true the run ties to the model (Dynamic.run) and to the real binary"""
+    i = lambda n: ("int", n)
+    out = []
+    for n_elif in LADDER_SIZES:
+        ts = [90 - 10 * k for k in range(n_elif + 1)]
+        for arg in sorted({ts[-1] + 5, ts[0] + 1, ts[len(ts) // 2] + 1, ts[-1] - 3}):
+            conds = [("bin", ">=", ("var", 0), i(t)) for t in ts]
+            body = [("if", conds[0], [("print", i(1000))], [(c, [("print", i(1001 + k))]) for k, c in enumerate(conds[1:])], [("print", i(2000))])]
+            c = Case([0], [arg], body, origin="corpus")
+            first = next((k for k, t in enumerate(ts) if arg >= t), None)
+            c.expect = [(0, 2000 if first is None else 1000 + first)]
+            out.append(c)
+        # order observable without overlap: an earlier condition that raises ZeroDivisionError
+        if n_elif >= 2:
+            conds = [("bin", ">=", ("var", 0), i(90)), ("bin", "==", ("bin", "//", i(7), ("var", 1)), i(0))] + \
+                    [("bin", ">=", ("var", 0), i(80 - 10 * k)) for k in range(n_elif - 1)]
+            body = [("if", conds[0], [("print", i(1000))], [(c, [("print", i(1001 + k))]) for k, c in enumerate(conds[1:])], None)]
+            c = Case([0, 1], [85, 0], body, origin="corpus")
+            c.expect_stop = 1
+            out.append(c)
+    return out
 
 
 # ------------------------------------------------------------------------------------------------ real tokens -> codes
@@ -1065,6 +1120,15 @@ def pipeline(chk, binary, cases, known, n_batches, batch_size, n_panic, n_fallba
                 suspects.append(i)
                 continue
         usable.append(i)
+    if model:
+        for i, c in enumerate(cases):
+            want = getattr(c, "expect", None)
+            if want is not None and (list(model[i]["src"][0]) != want or model[i]["src"][1] != 0):
+                corr_bad.append({"case": describe(c), "tie": "C01_elif_first_true instance: Dynamic.run vs the first-true-condition prediction",
+                                 "model": model[i]["src"], "prediction": want})
+            if getattr(c, "expect_stop", None) is not None and model[i]["src"][1] != c.expect_stop:
+                corr_bad.append({"case": describe(c), "tie": "C01_elif_first_stop instance: Dynamic.run vs the prediction (ZeroDivisionError)",
+                                 "model": model[i]["src"], "prediction": STOPS[c.expect_stop]})
     stats["emit_text_compared"] = len(usable)
     stats["rejected"] = rejected
     vlib.log("[c01] %d functions: %d usable after parser/emission ties, %d tie mismatches, %d rejected by the checker"
@@ -1170,6 +1234,84 @@ def pipeline(chk, binary, cases, known, n_batches, batch_size, n_panic, n_fallba
     return fails, corr_bad, stats
 
 
+def arm_hits(cases):
+    """how often the generated functions reach each arm of the hand models (statement / els / expression constructors of
+    Core/Syntax.v = the arms of Dynamic.exec_*, Lower.lower_*, the emitter and the Rust-side evaluator)"""
+    h = {}
+
+    def bump(k):
+        h[k] = h.get(k, 0) + 1
+
+    def ex(e):
+        k = e[0]
+        bump({"int": "EInt", "bool": "EBool", "var": "EVar", "paren": "EParen"}.get(k, k) if k not in ("un", "bin") else ("EUn " + e[1] if k == "un" else "EBin " + e[1]))
+        if k == "paren":
+            ex(e[1])
+        elif k == "un":
+            ex(e[2])
+        elif k == "bin":
+            ex(e[2]); ex(e[3])
+
+    def cx(c):
+        if c[0] == "call":
+            bump("CCall pos=%d kw=%d" % (min(len(c[2]), 3), min(len(c[3]), 3)))
+            for a in c[2]:
+                ex(a)
+            for _, a in c[3]:
+                ex(a)
+        else:
+            bump("CPure"); ex(c)
+
+    def blk(b, depth):
+        bump("block depth %d" % min(depth, 4))
+        for s in b:
+            k = s[0]
+            if k in ("assign", "cassign"):
+                bump("SAssign %s%s" % (s[1], " annotated" if s[3] else ""))
+                cx(s[4])
+            elif k == "compound":
+                bump("SCompound " + s[1]); ex(s[3])
+            elif k == "if":
+                bump("SIf elifs=%d %s" % (len(s[3]), "else" if s[4] is not None else "no-else"))
+                ex(s[1]); blk(s[2], depth + 1)
+                for c, b2 in s[3]:
+                    bump("EElif"); ex(c); blk(b2, depth + 1)
+                if s[4] is not None:
+                    bump("EElse"); blk(s[4], depth + 1)
+                else:
+                    bump("ENone")
+            elif k == "while":
+                bump("SWhile" + (" (loop)" if s[1] == ("bool", True) else "")); ex(s[1]); blk(s[2], depth + 1)
+            elif k == "for":
+                bump("SFor R%d" % len(s[2]))
+                for a in s[2]:
+                    ex(a)
+                blk(s[3], depth + 1)
+            elif k in ("print", "cprint"):
+                bump("SPrint"); cx(s[1])
+            elif k == "cexpr":
+                bump("SExpr"); cx(s[1])
+            elif k == "ret":
+                bump("SReturn " + ("None" if s[1] is None else "value"))
+                if s[1] is not None:
+                    cx(s[1])
+            else:
+                bump({"pass": "SPass", "break": "SBreak", "continue": "SContinue"}[k])
+
+    for c in cases:
+        bump("functions per program %d" % len(c.functions()))
+        for _, ps, ret, b in c.functions():
+            bump("fdef params=%d ret=%s" % (len(ps), ret))
+            blk(b, 0)
+    return h
+
+
+MODEL_ARMS = ["EInt", "EBool", "EVar", "EParen", "EUn neg", "EUn not"] + ["EBin " + o for o in ARITH + CMP + ["and", "or"]] + \
+             ["CPure", "SAssign inferred", "SAssign let", "SAssign mut", "SAssign mut annotated", "SCompound +", "SCompound -", "SCompound *", "SCompound //",
+              "SCompound %", "EElif", "EElse", "ENone", "SWhile", "SWhile (loop)", "SFor R1", "SFor R2", "SFor R3", "SPrint", "SExpr", "SReturn None",
+              "SReturn value", "SPass", "SBreak", "SContinue"] + ["SIf elifs=%d %s" % (n, e) for n in LADDER_SIZES for e in ("else", "no-else")]
+
+
 def gen_cases(chk, n_gen):
     g = Gen(chk.rng)
     cases = corpus()
@@ -1201,17 +1343,31 @@ def run(chk):
         "(coverage.wide_constructs_oracle_only) are NOT in the Coq model: they are exercised by the differential oracle only, expected output "
         "from the Python reference evaluator in checks/c01.py (WEval)",
     ]
+    if not any(f.get("id") == "enumerate-index-usize" for f in chk.findings):
+        # TEMPORARY fallback until the lead merges build/kf-C01.json into known_findings.json (drop after merging)
+        try:
+            chk.findings = json.load(open(os.path.join(vlib.VERIF, "build", "kf-C01.json")))
+        except OSError:
+            pass
     known = load_findings(chk, "C01")
     res = chk.proof_stage("C01", allow_axioms=(), rs2v_units=["CoreNum", "StdNum"])
     dbg = vlib.build_harness("debug")
     quick = chk.tier == "quick"
     cases = gen_cases(chk, 330 if quick else 2400)
     chk.coverage["constructs"] = CONSTRUCTS
+    hits = arm_hits(cases)
+    chk.coverage["model_arm_hits"] = dict(sorted(hits.items()))
+    chk.coverage["model_arms_with_zero_hits"] = [a for a in MODEL_ARMS if not hits.get(a)]
     fails, corr_bad, stats = pipeline(chk, dbg, cases, known, n_batches=1 if quick else 8, batch_size=150, n_panic=4 if quick else 16)
     wfails, wstats = wide_oracle(chk, dbg, 70 if quick else 400, "c01")
     fails += wfails
     chk.coverage["wide_constructs_oracle_only"] = WIDE_CONSTRUCTS
     chk.coverage.update(wstats)
+    mfails, mstats, mrepro = matrix_oracle(chk, dbg, "c01", "C01", known)
+    fails += mfails
+    chk.coverage.update(mstats)
+    for fid in mrepro:
+        stats["known_hits"][fid] = [0]
     # finding outside the Coq fragment (calls nested in arguments): replay its witness on the real binary
     if "kwarg-eval-order" in known:
         d = scratch_dir("c01k")
@@ -1851,3 +2007,828 @@ def wide_oracle(chk, binary, n_cases, tag):
         clean_gen_target([stem])
     vlib.log("[c01] wide oracle: %d functions, %d failures" % (n_cases, len(fails)))
     return fails, stats
+
+
+# ================================================================================================ matrix programs
+# Binder x source x use matrix (oracle only, outside the Coq fragment), added after the round-2 seeds C02-2 (loop
+# variable of a Set typed Int, `.clone()` lost at a call site) and C01-2 (elif chain folded in reverse):
+#   binders: for-loop variable, comprehension variable (list / dict comprehension, with and without filter), match
+#            binders (Some/Ok/Err/enum payloads/plain binding), closure parameters;
+#   sources: List (variable, literal, parameter, mutable, slice, call result, model field, nested element, comprehension,
+#            sorted), range(1..3 args), Set (variable, literal, parameter, call result, annotated), Dict (implicit keys,
+#            .keys(), .values(), .items(), parameter), str iteration, str.split, enumerate, zip; element types int / str;
+#   uses:    call argument (positional / keyword / second position), arithmetic, println, f-string, comparison, index,
+#            assignment (let / mut / outer), return, method receiver / builtin, append, dict key (read / insert), compound
+#            assignment, model field, list element, tuple element, `in`, closure capture, closure argument, nested loop
+#            bound, while, Some(..)+match, elif ladder, and/or.
+#   ladders: if/elif chains with 0,1,2,3,5 elifs, overlapping (threshold / modulo) conditions and side-effecting
+#            conditions (a helper that prints), with and without else, in every statement context (function top level,
+#            for / while body, then / elif / else branch, match arm, value-returning helper, method of a model).
+# Every cell is one Incan function; its expected output is obtained by running the SAME text as Python (Incan is
+# Python-like on this subset: the textual translation below only drops `mut`/`let`, rewrites `(x) => e` to lambda,
+# `t.0` to `t[0]`, true/false, and supplies println/Some/Ok/Err/models/enums as Python definitions), i.e. the reference
+# evaluator is CPython itself on the documented Python-like semantics.  Unordered collections (Set, Dict) are observed
+# through order-independent aggregates only.  C02 judges the cells by rustc's verdict, C01 by the binary's output.
+
+M_PRELUDE = '''model P0:
+    a: int
+    b: int
+
+model Bag:
+    items: List[int]
+    tag: int
+
+enum Sh:
+    Ci(int)
+    Re(int, int)
+    Na(str)
+    Em
+
+def sq(n: int) -> int:
+    return n * n + 1
+
+def sub(p: int, q: int) -> int:
+    return p * 10 - q
+
+def shout(s: str) -> str:
+    return f"{s}!"
+
+def slen(s: str) -> int:
+    return len(s)
+
+def tick(n: int) -> int:
+    println(n)
+    return n
+
+def mk_list(n: int) -> List[int]:
+    return [n, n + 2, n + 5]
+
+def mk_set(n: int) -> Set[int]:
+    return {n, n + 2, n + 5}
+
+def total_of(xs: List[int]) -> int:
+    mut t = 0
+    for v in xs:
+        t = t + v
+    return t
+
+def find_big(xs: List[int], k: int) -> Option[int]:
+    for v in xs:
+        if v > k:
+            return Some(v)
+    return None
+
+def safe_div(p: int, q: int) -> Result[int, str]:
+    if q == 0:
+        return Err("div0")
+    return Ok(p // q)
+
+'''
+
+M_PY_PRELUDE = '''
+from dataclasses import dataclass as _dc
+class _Any:
+    def __getitem__(self, k): return self
+List = Dict = Set = Option = Result = Tuple = _Any()
+_out = []
+def println(x):
+    _out.append(("true" if x else "false") if isinstance(x, bool) else str(x))
+class Some:
+    __match_args__ = ("v",)
+    def __init__(self, v): self.v = v
+class Ok(Some): pass
+class Err(Some): pass
+@_dc
+class P0:
+    a: int
+    b: int
+@_dc
+class Bag:
+    items: list
+    tag: int
+class Sh:
+    class Ci:
+        __match_args__ = ("p0",)
+        def __init__(self, p0): self.p0 = p0
+    class Re:
+        __match_args__ = ("p0", "p1")
+        def __init__(self, p0, p1): self.p0, self.p1 = p0, p1
+    class Na(Ci): pass
+    class _Em:
+        def __eq__(self, o): return isinstance(o, Sh._Em)
+    Em = _Em()
+'''
+
+
+def m_to_py(src):
+    out = []
+    for line in src.split("\n"):
+        ind = len(line) - len(line.lstrip(" "))
+        body = line[ind:]
+        for pre in ("mut ", "let "):
+            if body.startswith(pre):
+                body = body[len(pre):]
+        if re.match(r"(model|enum) ", body):
+            raise ValueError("declarations are supplied by M_PY_PRELUDE")
+        body = re.sub(r"\(([a-z_0-9, ]*)\) => ", lambda m: "lambda %s: " % m.group(1), body)
+        body = re.sub(r"(?<=[\w\)\]])\.(\d+)\b", r"[\1]", body)
+        body = re.sub(r"\btrue\b", "True", body)
+        body = re.sub(r"\bfalse\b", "False", body)
+        body = re.sub(r"\.contains\(([^()]*)\)", r".__contains__(\1)", body)
+        out.append(" " * ind + body)
+    return "\n".join(out)
+
+
+def m_py_functions(text):
+    """the helper functions of M_PRELUDE as Python (the model/enum declarations come from M_PY_PRELUDE)"""
+    keep, skip = [], False
+    for line in text.split("\n"):
+        if re.match(r"(model|enum) ", line):
+            skip = True
+            continue
+        if skip and (line.startswith(" ") or line == ""):
+            continue
+        skip = False
+        keep.append(line)
+    return m_to_py("\n".join(keep))
+
+
+class MCell:
+    def __init__(self, attrs, sig, call, body, extra=""):
+        self.attrs, self.sig, self.call, self.body, self.extra = attrs, sig, call, body, extra   # body: list of lines (indent 0)
+
+    def source(self, name):
+        """extra: helper functions of this cell (their names contain NAME, replaced by the cell's name)"""
+        ex = self.extra.replace("NAME", name)
+        return ex + "def %s(%s) -> None:\n%s\n" % (name, self.sig, "\n".join("    " + l for l in self.body).replace("NAME", name))
+
+    def call_line(self, name):
+        return "%s(%s)" % (name, self.call)
+
+    def key(self):
+        return "/".join("%s=%s" % kv for kv in sorted(self.attrs.items()))
+
+
+def m_sources(rng):
+    """binder sources for loops and comprehensions: (key, elem type, ordered, sig, call args, setup lines, iterable text,
+    loop variable name, expression that denotes the element)"""
+    a, b, c = sorted(rng.sample(range(1, 10), 3))
+    rng_order = [a, b, c]
+    rng.shuffle(rng_order)
+    L = "[%d, %d, %d]" % tuple(rng_order)
+    S = "{%d, %d, %d}" % tuple(rng_order)
+    D = "{%d: %d, %d: %d, %d: %d}" % (rng_order[0], 10, rng_order[1], 20, rng_order[2], 30)
+    DV = "{10: %d, 20: %d, 30: %d}" % tuple(rng_order)
+    w = rng.sample(["ab", "c", "def", "gh", "ijkl", "m"], 3)
+    LS = '["%s", "%s", "%s"]' % tuple(w)
+    SS = '{"%s", "%s", "%s"}' % tuple(w)
+    DS = '{"%s": 1, "%s": 2, "%s": 3}' % tuple(w)
+    word = "".join(w)
+    I, T = "int", "str"
+    return [
+        ("list_var", I, True, "", "", ["xs = " + L], "xs", "x", "x"),
+        ("list_lit", I, True, "", "", [], L, "x", "x"),
+        ("list_param", I, True, "xs: List[int]", L, [], "xs", "x", "x"),
+        ("list_mut", I, True, "", "", ["mut xs = " + L, "xs.append(%d)" % (c + 1)], "xs", "x", "x"),
+        ("list_annot", I, True, "", "", ["xs: List[int] = " + L], "xs", "x", "x"),
+        ("list_slice", I, True, "", "", ["xs = " + L], "xs[1:]", "x", "x"),
+        ("list_call", I, True, "", "", [], "mk_list(%d)" % a, "x", "x"),
+        ("list_field", I, True, "", "", ["o = Bag(items=%s, tag=1)" % L], "o.items", "x", "x"),
+        ("list_nested", I, True, "", "", ["g = [%s, [1]]" % L], "g[0]", "x", "x"),
+        ("list_compr", I, True, "", "", ["xs = " + L], "[y + 1 for y in xs]", "x", "x"),
+        ("list_sorted", I, True, "", "", ["xs = " + L], "sorted(xs)", "x", "x"),
+        ("range1", I, True, "", "", [], "range(%d)" % (a + 2), "x", "x"),
+        ("range2", I, True, "", "", [], "range(%d, %d)" % (a, a + 4), "x", "x"),
+        ("range3", I, True, "", "", [], "range(%d, %d, 2)" % (a, a + 7), "x", "x"),
+        ("range_var", I, True, "n: int", str(a + 2), [], "range(n)", "x", "x"),
+        ("set_var", I, False, "", "", ["s = " + S], "s", "x", "x"),
+        ("set_lit", I, False, "", "", [], S, "x", "x"),
+        ("set_param", I, False, "s: Set[int]", S, [], "s", "x", "x"),
+        ("set_call", I, False, "", "", [], "mk_set(%d)" % a, "x", "x"),
+        ("set_annot", I, False, "", "", ["s: Set[int] = " + S], "s", "x", "x"),
+        ("dict_implicit", I, False, "", "", ["d = " + D], "d", "x", "x"),
+        ("dict_keys", I, False, "", "", ["d = " + D], "d.keys()", "x", "x"),
+        ("dict_values", I, False, "", "", ["d = " + DV], "d.values()", "x", "x"),
+        ("dict_param", I, False, "d: Dict[int, int]", D, [], "d", "x", "x"),
+        ("enumerate_idx", I, True, "", "", ["xs = " + L], "enumerate(xs)", "it", "it.0"),
+        ("enumerate_val", I, True, "", "", ["xs = " + L], "enumerate(xs)", "it", "it.1"),
+        ("zip_left", I, True, "", "", ["xs = " + L, "ys = [7, 8, 9]"], "zip(xs, ys)", "it", "it.0"),
+        ("zip_right", I, True, "", "", ["xs = " + L, "ys = [7, 8, 9]"], "zip(ys, xs)", "it", "it.1"),
+        ("strlist_var", T, True, "", "", ["xs = " + LS], "xs", "x", "x"),
+        ("strlist_lit", T, True, "", "", [], LS, "x", "x"),
+        ("strlist_param", T, True, "xs: List[str]", LS, [], "xs", "x", "x"),
+        ("strset_var", T, False, "", "", ["s = " + SS], "s", "x", "x"),
+        ("strdict_implicit", T, False, "", "", ["d = " + DS], "d", "x", "x"),
+        ("strdict_keys", T, False, "", "", ["d = " + DS], "d.keys()", "x", "x"),
+        ("str_var", T, True, "", "", ['s = "%s"' % word], "s", "x", "x"),
+        ("str_lit", T, True, "", "", [], '"%s"' % word, "x", "x"),
+        ("str_param", T, True, "s: str", '"%s"' % word, [], "s", "x", "x"),
+        ("str_split", T, True, "", "", ['s = "%s"' % ",".join(w)], 's.split(",")', "x", "x"),
+        ("enumerate_strval", T, True, "", "", ["xs = " + LS], "enumerate(xs)", "it", "it.1"),
+        ("zip_strleft", T, True, "", "", ["xs = " + LS, "ys = [7, 8, 9]"], "zip(xs, ys)", "it", "it.0"),
+    ]
+
+
+def m_uses(rng, ty):
+    """uses of a bound element X: (key, setup lines before the binder, lines inside the binder scope, lines after).
+    `EMIT(e)` marks where an int value is observed, `EMITS(e)` a str value; `NAME_h` is a per-cell helper (use `return`)."""
+    k = rng.randint(2, 7)
+    ref = "[" + ", ".join(str(rng.randint(10, 99)) for _ in range(24)) + "]"
+    d2 = "{" + ", ".join("%d: %d" % (i, rng.randint(100, 999)) for i in range(24)) + "}"
+    if ty == "int":
+        return [
+            ("call_arg", [], ["EMIT(sq(X))"], []),
+            ("call_kwarg", [], ["EMIT(sq(n=X))"], []),
+            ("call_second", [], ["EMIT(sub(%d, X))" % k], []),
+            ("call_kw_swapped", [], ["EMIT(sub(q=%d, p=X))" % k], []),
+            ("call_nested", [], ["EMIT(sq(sub(X, %d)))" % k], []),
+            ("arith", [], ["EMIT(X * %d + 1)" % k], []),
+            ("arith_right", [], ["EMIT(100 - X)"], []),
+            ("floordiv_mod", [], ["EMIT(X // 2 + X %% %d)" % k], []),
+            ("neg", [], ["EMIT(-X)"], []),
+            ("println", [], ["EMIT(X)"], []),
+            ("fstring", [], ['EMITS(f"v={X}")'], []),
+            ("fstring_expr", [], ['EMITS(f"{X + 1}|{sq(X)}")'], []),
+            ("compare_if", [], ["if X > %d:" % k, "    EMIT(1)", "else:", "    EMIT(2)"], []),
+            ("compare_eq", [], ["if X == %d:" % k, "    EMIT(X)"], []),
+            ("compare_rev", [], ["if %d >= X:" % k, "    EMIT(3)"], []),
+            ("and_or", [], ["if X > 1 and X < 8 or X == 0:", "    EMIT(4)"], []),
+            ("index", ["ref = " + ref], ["EMIT(ref[X])"], []),
+            ("index_expr", ["ref = " + ref], ["EMIT(ref[X + 1])"], []),
+            ("assign", [], ["y = X", "EMIT(y + 1)"], []),
+            ("assign_let", [], ["let y = X", "EMIT(sq(y))"], []),
+            ("assign_mut", [], ["mut y = X", "y += 1", "EMIT(y)"], []),
+            ("assign_typed", [], ["y: int = X", "EMIT(y)"], []),
+            ("assign_outer", ["mut last = 0"], ["last = last + X"], ["println(last)"]),
+            ("compound", ["mut acc = 1"], ["acc += X"], ["println(acc)"]),
+            ("compound_mul", ["mut acc = 1"], ["acc *= X"], ["println(acc)"]),
+            ("return", [], ["if X == ELEM:", "    return X"], []),
+            ("builtin_abs", [], ["EMIT(abs(X))"], []),
+            ("builtin_str", [], ["EMITS(str(X))"], []),
+            ("append", ["mut out: List[int] = []"], ["out.append(X)"], ["println(len(out))", "println(total_of(out))"]),
+            ("append_expr", ["mut out: List[int] = []"], ["out.append(X * 2)"], ["println(total_of(out))"]),
+            ("dict_read", ["d2 = " + d2], ["EMIT(d2[X])"], []),
+            ("dict_insert", ["mut d3: Dict[int, int] = {}"], ["d3[X] = X + 1"], ["println(len(d3))"]),
+            ("model_field", [], ["EMIT(P0(a=X, b=1).a)"], []),
+            ("model_var", [], ["o2 = P0(a=X, b=2)", "EMIT(o2.a + o2.b)"], []),
+            ("list_elem", [], ["ys2 = [X, 7]", "EMIT(ys2[0])"], []),
+            ("list_arg", [], ["EMIT(total_of([X, 2]))"], []),
+            ("tuple_elem", [], ["t = (X, 1)", "EMIT(t.0)"], []),
+            ("in_list", ["ref2 = [ELEM, 99]"], ["if X in ref2:", "    EMIT(5)"], []),
+            ("closure_capture", [], ["gg = (z) => z + X", "EMIT(gg(1))"], []),
+            ("closure_arg", ["h = (z) => z * 3"], ["EMIT(h(X))"], []),
+            ("nested_range", [], ["for j in range(X % 3):", "    EMIT(j + X)"], []),
+            ("while", [], ["mut w = X", "while w > X - 2:", "    w -= 1", "EMIT(w)"], []),
+            ("some_match", [], ["o3 = Some(X)", "match o3:", "    case Some(v):", "        EMIT(v)", "    case None:", "        EMIT(0)"], []),
+            ("ladder", [], ["if X >= 7:", "    EMIT(70)", "elif X >= 4:", "    EMIT(40)", "elif X >= 2:", "    EMIT(20)", "else:", "    EMIT(1)"], []),
+            ("enum_payload", [], ["e = Sh.Ci(X)", "match e:", "    case Sh.Ci(r):", "        EMIT(r)", "    case _:", "        EMIT(0)"], []),
+        ]
+    return [
+        ("call_arg", [], ["EMITS(shout(X))"], []),
+        ("call_kwarg", [], ["EMITS(shout(s=X))"], []),
+        ("call_int", [], ["EMIT(slen(X))"], []),
+        ("len", [], ["EMIT(len(X))"], []),
+        ("println", [], ["EMITS(X)"], []),
+        ("fstring", [], ['EMITS(f"<{X}>")'], []),
+        ("compare_eq", [], ['if X == "c":', "    EMIT(1)", "else:", "    EMIT(2)"], []),
+        ("method_upper", [], ["EMITS(X.upper())"], []),
+        ("concat", [], ['EMITS(X + "!")'], []),
+        ("concat_left", [], ['EMITS("<" + X)'], []),
+        ("assign", [], ["y = X", "EMITS(y)"], []),
+        ("assign_mut", [], ["mut y = X", 'y = y + "z"', "EMITS(y)"], []),
+        ("append", ["mut out: List[str] = []"], ["out.append(X)"], ["println(len(out))"]),
+        ("dict_insert", ["mut d3: Dict[str, int] = {}"], ["d3[X] = 1"], ["println(len(d3))"]),
+        ("return", [], ["if X == SELEM:", "    return len(X)"], []),
+        ("index0", [], ["EMITS(X[0])"], []),
+        ("list_elem", [], ["ys2 = [X]", "EMIT(len(ys2[0]))"], []),
+        ("tuple_elem", [], ["t = (X, 1)", "EMITS(t.0)"], []),
+        ("closure_capture", [], ["gg = (z) => z + len(X)", "EMIT(gg(1))"], []),
+        ("enum_payload", [], ["e = Sh.Na(X)", "match e:", "    case Sh.Na(r):", "        EMITS(r)", "    case _:", "        EMIT(0)"], []),
+    ]
+
+
+def m_emit(lines, ordered, elem_int, elem_str):
+    """replace EMIT/EMITS markers: ordered -> println; unordered -> accumulate into `total`"""
+    out = []
+    for l in lines:
+        l = l.replace("SELEM", '"%s"' % elem_str).replace("ELEM", str(elem_int)) if "ELEM" in l else l
+        m = re.match(r"(\s*)EMIT(S?)\((.*)\)$", l)
+        if not m:
+            out.append(l)
+            continue
+        ind, s, e = m.groups()
+        if ordered:
+            out.append("%sprintln(%s)" % (ind, e))
+        elif s:
+            out.append("%stotal = total + len(%s)" % (ind, e))
+        else:
+            out.append("%stotal = total + %s" % (ind, e))
+    return out
+
+
+def m_first_elems(setup, it, call):
+    mi = re.search(r"[\[{](\d+)[,:]", " ".join(setup) + it + call) or re.search(r"\((\d+)", it + call)
+    ms = re.search(r'"(\w+)"', " ".join(setup) + it + call)
+    ei = int(mi.group(1)) if mi else 1
+    es = ms.group(1) if ms else "c"
+    return ei, es
+
+
+def m_loop_cells(rng):
+    cells = []
+    for (sk, ty, ordered, sig, call, setup, it, var, X) in m_sources(rng):
+        ei, es = m_first_elems(setup, it, call)
+        if sk.startswith("range"):
+            ei = 1 if sk != "range3" and sk != "range2" else int(re.search(r"\((\d+)", it).group(1))
+        if sk in ("str_var", "str_lit", "str_param"):
+            es = es[0]
+        if sk == "str_split":
+            es = es.split(",")[0] if "," in es else es
+        for (uk, pre, inner, post) in m_uses(rng, ty):
+            inner2 = m_emit([l.replace("X", X) for l in inner], ordered, ei, es)
+            body = list(setup) + m_emit(pre, ordered, ei, es)
+            if not ordered:
+                body.append("mut total = 0")
+            attrs = {"binder": "for", "source": sk, "elem": ty, "use": uk}
+            if uk == "return":
+                # the loop lives in a value-returning helper; the element returned is a specific one (order-independent)
+                hsig = sig
+                helper = "def NAME_h(%s) -> int:\n%s\n    for %s in %s:\n%s\n    return -1\n\n" % (
+                    hsig, "".join("    %s\n" % l for l in setup).rstrip("\n") or "    pass", var, it,
+                    "\n".join("        " + l for l in inner2))
+                hcall = ", ".join(re.findall(r"(\w+):", sig))
+                cells.append(MCell(attrs, sig, call, ["println(NAME_h(%s))" % hcall], extra=helper))
+                continue
+            body.append("for %s in %s:" % (var, it))
+            body += ["    " + l for l in inner2]
+            body += post
+            if not ordered:
+                body.append("println(total)")
+            cells.append(MCell(attrs, sig, call, body))
+    return cells
+
+
+def m_compr_cells(rng):
+    cells = []
+    exprs_int = [("call_arg", "sq(X)"), ("call_kwarg", "sq(n=X)"), ("call_second", "sub(3, X)"), ("arith", "X * 2 + 1"), ("ident", "X"),
+                 ("index", "ref[X]"), ("model_field", "P0(a=X, b=1).a"), ("list_elem", "[X, 5][0]"), ("tuple_elem", "(X, 1).0"),
+                 ("builtin_abs", "abs(X)"), ("closure_arg", "h(X)"), ("fstring_len", 'len(f"{X}")'), ("neg", "-X")]
+    exprs_str = [("call_arg", "slen(X)"), ("len", "len(X)"), ("call_str", "len(shout(X))"), ("fstring_len", 'len(f"<{X}>")'),
+                 ("upper_len", "len(X.upper())")]
+    ref = "[" + ", ".join(str(rng.randint(10, 99)) for _ in range(24)) + "]"
+    for (sk, ty, ordered, sig, call, setup, it, var, X) in m_sources(rng):
+        exprs = exprs_int if ty == "int" else exprs_str
+        for (uk, e) in exprs:
+            for filt in (None, "use") if uk in ("call_arg", "arith", "ident", "len") else (None,):
+                pre = list(setup) + (["ref = " + ref] if uk == "index" else []) + (["h = (z) => z * 3"] if uk == "closure_arg" else [])
+                ex = e.replace("X", X)
+                cond = ""
+                if filt:
+                    cond = (" if sq(%s) > 10" % X) if ty == "int" else (" if slen(%s) > 1" % X)
+                body = pre + ["r = [%s for %s in %s%s]" % (ex, var, it, cond)]
+                body += ["for q in r:", "    println(q)"] if ordered else ["println(len(r))", "println(total_of(r))"]
+                cells.append(MCell({"binder": "listcomp" + ("+filter" if filt else ""), "source": sk, "elem": ty, "use": uk}, sig, call, body))
+        # dict comprehension keyed by the element
+        kx = X
+        vx = ("sq(%s)" % X) if ty == "int" else ("slen(%s)" % X)
+        ei, es = m_first_elems(setup, it, call)
+        body = list(setup) + ["r = {%s: %s for %s in %s}" % (kx, vx, var, it), "println(len(r))"]
+        cells.append(MCell({"binder": "dictcomp", "source": sk, "elem": ty, "use": "key+call_arg"}, sig, call, body))
+    return cells
+
+
+def m_match_cells(rng):
+    a, b = rng.randint(2, 9), rng.randint(2, 9)
+    scrs = [
+        ("some_lit", "int", ["o = Some(%d)" % a], "o", [("Some(v)", True), ("None", False)]),
+        ("some_call", "int", ["o = find_big([1, %d, %d], 1)" % (a + 1, b + 1)], "o", [("Some(v)", True), ("None", False)]),
+        ("none_call", "int", ["o = find_big([1, 2], 50)"], "o", [("Some(v)", True), ("None", False)]),
+        ("some_inline", "int", [], "find_big([%d, 1], 1)" % (a + 1), [("Some(v)", True), ("None", False)]),
+        ("ok_call", "int", ["o = safe_div(%d, %d)" % (a * b + 1, a)], "o", [("Ok(v)", True), ("Err(e)", False)]),
+        ("ok_inline", "int", [], "safe_div(%d, %d)" % (a * 7, a), [("Ok(v)", True), ("Err(e)", False)]),
+        ("err_call", "str", ["o = safe_div(%d, 0)" % a], "o", [("Ok(w)", False), ("Err(v)", True)]),
+        ("enum_one", "int", ["o = Sh.Ci(%d)" % a], "o", [("Sh.Ci(v)", True), ("_", False)]),
+        ("enum_two_first", "int", ["o = Sh.Re(%d, %d)" % (a, b)], "o", [("Sh.Ci(u)", False), ("Sh.Re(v, u)", True), ("_", False)]),
+        ("enum_two_second", "int", ["o = Sh.Re(%d, %d)" % (a, b)], "o", [("Sh.Re(u, v)", True), ("_", False)]),
+        ("enum_str", "str", ['o = Sh.Na("%s")' % rng.choice(["ab", "cde"])], "o", [("Sh.Na(v)", True), ("_", False)]),
+        ("enum_param", "int", [], "o", [("Sh.Ci(v)", True), ("Sh.Re(v, u)", True), ("Sh.Na(t)", False), ("Sh.Em", False)]),
+        ("int_binding", "int", ["o = %d" % a], "o", [("0", False), ("v", True)]),
+    ]
+    cells = []
+    for (sk, ty, setup, scr, arms) in scrs:
+        for (uk, pre, inner, post) in m_uses(rng, ty):
+            if uk in ("return", "some_match", "enum_payload", "nested_range", "while"):
+                continue
+            inner2 = m_emit([l.replace("X", "v") for l in inner], True, a, "ab")
+            body = list(setup) + m_emit(pre, True, a, "ab") + ["match %s:" % scr]
+            for pat, binds in arms:
+                body.append("    case %s:" % pat)
+                body += ["        " + l for l in (inner2 if binds else ["println(-1)"])]
+            body += post
+            sig, call = ("o: Sh", "Sh.Re(%d, %d)" % (a, b)) if sk == "enum_param" else ("", "")
+            cells.append(MCell({"binder": "match", "source": sk, "elem": ty, "use": uk}, sig, call, body))
+    return cells
+
+
+def m_closure_cells(rng):
+    a, b = rng.randint(2, 9), rng.randint(2, 9)
+    cells = []
+    ref = "[" + ", ".join(str(rng.randint(10, 99)) for _ in range(24)) + "]"
+    exprs = [("call_arg", "sq(X)"), ("call_kwarg", "sq(n=X)"), ("call_second", "sub(3, X)"), ("arith", "X * 2 + 1"), ("ident", "X"),
+             ("model_field", "P0(a=X, b=1).a"), ("list_elem", "[X, 5][0]"), ("tuple_elem", "(X, 1).0"),
+             ("builtin_abs", "abs(X)"), ("compare", "X > 3"), ("neg", "-X"), ("capture", "X + k0"), ("fstring", 'f"v={X}"')]
+    for (uk, e) in exprs:
+        for form in ("one", "two", "inline_arg", "in_loop"):
+            pre = ["k0 = %d" % b]
+            if form == "one":
+                body = pre + ["f = (x) => %s" % e.replace("X", "x"), "println(f(%d))" % a]
+            elif form == "two":
+                body = pre + ["f = (x, y) => %s" % e.replace("X", "y"), "println(f(%d, %d))" % (b, a)]
+            elif form == "inline_arg":
+                body = pre + ["f = (x) => %s" % e.replace("X", "x"), "z = %d" % a, "println(f(z))", "println(f(z + 1))"]
+            else:
+                body = pre + ["f = (x) => %s" % e.replace("X", "x"), "for i in range(%d):" % 3, "    println(f(i))"]
+            cells.append(MCell({"binder": "closure", "source": form, "elem": "int", "use": uk}, "", "", body))
+    return cells
+
+
+def m_ladder(rng, n_elif, cond_kind, has_else, var, act, ind=""):
+    """lines of an if/elif ladder on the int expression `var`; act(i) -> lines of branch i"""
+    n = n_elif + 1
+    if cond_kind == "desc":
+        ts = sorted(rng.sample(range(1, 40), n), reverse=True)
+        conds = ["%s >= %d" % (var, t) for t in ts]
+    elif cond_kind == "asc":
+        ts = sorted(rng.sample(range(1, 40), n))
+        conds = ["%s < %d" % (var, t) for t in ts]
+    elif cond_kind == "mod":
+        ms = rng.sample([2, 3, 4, 5, 6, 7], n)
+        conds = ["%s %% %d == 0" % (var, m) for m in ms]
+    elif cond_kind == "tick":           # side-effecting conditions: each evaluated condition prints
+        ts = sorted(rng.sample(range(1, 40), n), reverse=True)
+        conds = ["tick(%s + %d) >= %d" % (var, i, t + i) for i, t in enumerate(ts)]
+    else:                               # "tick_and": short-circuit + side effect
+        ts = sorted(rng.sample(range(1, 40), n), reverse=True)
+        conds = ["%s >= %d and tick(%d) > 0" % (var, t, 100 + i) for i, t in enumerate(ts)]
+    out = []
+    for i, c in enumerate(conds):
+        out.append("%s%s %s:" % (ind, "if" if i == 0 else "elif", c))
+        out += [ind + "    " + l for l in act(i)]
+    if has_else:
+        out.append(ind + "else:")
+        out += [ind + "    " + l for l in act(n)]
+    return out
+
+
+def m_ladder_cells(rng):
+    cells = []
+    contexts = ["top", "for_body", "while_body", "then_branch", "else_branch", "elif_body", "match_arm", "return_helper", "method", "nested_ladder",
+                "closure_free_fn_arg"]
+    inputs = [0, 1, 2, 3, 5, 7, 11, 12, 19, 20, 24, 30, 36, 41]
+    for n_elif in LADDER_SIZES:
+        for ck in ("desc", "asc", "mod", "tick", "tick_and"):
+            for ctx in contexts:
+                has_else = rng.random() < 0.6
+                st = rng.getstate()
+                attrs = {"binder": "ladder", "source": ctx, "elem": "elifs=%d" % n_elif, "use": ck + ("+else" if has_else else "")}
+                pr = lambda i: ["println(%d)" % (1000 + i)]
+                extra = ""
+                if ctx == "top":
+                    body = m_ladder(rng, n_elif, ck, has_else, "v", pr)
+                    sig, wrap = "v: int", None
+                elif ctx == "for_body":
+                    body = ["for v in %s:" % str(inputs)] + m_ladder(rng, n_elif, ck, has_else, "v", pr, "    ")
+                    sig = ""
+                elif ctx == "while_body":
+                    body = ["mut v = 44", "while v > 0:", "    v -= 3"] + m_ladder(rng, n_elif, ck, has_else, "v", pr, "    ")
+                    sig = ""
+                elif ctx == "then_branch":
+                    body = ["if v >= 0:"] + m_ladder(rng, n_elif, ck, has_else, "v", pr, "    ") + ["else:", "    println(-5)"]
+                    sig = "v: int"
+                elif ctx == "else_branch":
+                    body = ["if v < 0:", "    println(-5)", "else:"] + m_ladder(rng, n_elif, ck, has_else, "v", pr, "    ")
+                    sig = "v: int"
+                elif ctx == "elif_body":
+                    body = ["if v < 0:", "    println(-5)", "elif v >= 0:"] + m_ladder(rng, n_elif, ck, has_else, "v", pr, "    ") + ["else:", "    println(-6)"]
+                    sig = "v: int"
+                elif ctx == "match_arm":
+                    body = ["o = Some(v)", "match o:", "    case Some(w):"] + m_ladder(rng, n_elif, ck, has_else, "w", pr, "        ") + ["    case None:", "        println(-7)"]
+                    sig = "v: int"
+                elif ctx == "return_helper":
+                    lad = m_ladder(rng, n_elif, ck, has_else, "v", lambda i: ["return %d" % (1000 + i)], "    ")
+                    extra = "def NAME_h(v: int) -> int:\n%s\n    return -1\n\n" % "\n".join(lad)
+                    body = ["println(NAME_h(v))"]
+                    sig = "v: int"
+                elif ctx == "method":
+                    lad = m_ladder(rng, n_elif, ck, has_else, "self.a", lambda i: ["return %d" % (1000 + i)], "        ")
+                    extra = "model NAME_M:\n    a: int\n\n    def grade(self) -> int:\n%s\n        return -1\n\n" % "\n".join(lad)
+                    body = ["o = NAME_M(a=v)", "println(o.grade())"]
+                    sig = "v: int"
+                elif ctx == "nested_ladder":
+                    inner = m_ladder(rng, min(n_elif, 2), "desc", True, "v", lambda i: ["println(%d)" % (2000 + i)])
+                    body = m_ladder(rng, n_elif, ck, has_else, "v", lambda i: [l for l in inner] if i == 1 else ["println(%d)" % (1000 + i)])
+                    sig = "v: int"
+                else:
+                    # the ladder assigns; the result goes through a call argument afterwards
+                    body = ["mut r = 0"] + m_ladder(rng, n_elif, ck, has_else, "v", lambda i: ["r = %d" % (10 + i)]) + ["println(sq(r))"]
+                    sig = "v: int"
+                if sig:
+                    # one function, called with every input (overlaps of the conditions included)
+                    cells.append(MCell(attrs, sig, "", body, extra=extra))
+                    cells[-1].calls = inputs
+                else:
+                    cells.append(MCell(attrs, "", "", body, extra=extra))
+    return cells
+
+
+def m_py_class_of(extra_py, name):
+    """Python text for a per-cell model declared in `extra` (only `model NAME_M: a: int` + methods is used)"""
+    return extra_py
+
+
+def m_cell_py(cell, name):
+    """Python text of a cell (its helper declarations + the function)"""
+    src = cell.source(name)
+    # per-cell model -> dataclass
+    src = re.sub(r"^model (\w+):\n    a: int\n", r"@_dc\nclass \1:\n    a: int\n", src, flags=re.M)
+    return m_to_py(src)
+
+
+def m_expected(cells, names):
+    """run the Python reading of every cell; returns {name: [lines] | ('exception', text)}"""
+    glob = {}
+    exec(M_PY_PRELUDE + "\n" + m_py_functions(M_PRELUDE), glob)
+    res = {}
+    for cell, name in zip(cells, names):
+        try:
+            exec(m_cell_py(cell, name), glob)
+            glob["_out"].clear()
+            for call in m_calls(cell, name):
+                exec(m_to_py(call), glob)
+            res[name] = list(glob["_out"])
+        except Exception as e:           # the Python reading fails: the cell is not usable (generator bug)
+            res[name] = ("exception", "%s: %s" % (type(e).__name__, e))
+    return res
+
+
+def m_calls(cell, name):
+    if getattr(cell, "calls", None):
+        return ["%s(%d)" % (name, v) for v in cell.calls]
+    return [cell.call_line(name)]
+
+
+def m_program(cells_names):
+    parts = [M_PRELUDE] + [c.source(n) for c, n in cells_names]
+    main = ["def main() -> None:"]
+    for c, n in cells_names:
+        main.append('    println("@@%s")' % n)
+        main += ["    " + l for l in m_calls(c, n)]
+    main.append('    println("@@end")')
+    return "\n".join(parts) + "\n" + "\n".join(main) + "\n"
+
+
+M_CORE_USES = {"call_arg", "call_kwarg", "call_second", "arith", "println", "fstring", "compare_if", "index", "assign", "assign_mut", "return",
+               "builtin_str", "method_upper", "len", "append", "dict_read", "compound", "model_field", "closure_capture", "ladder", "tuple_elem",
+               "ident", "key+call_arg", "concat", "call_int", "some_match"}
+
+
+def m_all_cells(rng, tier):
+    """thorough: the whole matrix; quick: every source x the core uses, every closure cell, and for the ladders every
+    (number of elifs, statement context) pair with the condition kind rotating with the seed"""
+    cells = m_loop_cells(rng) + m_compr_cells(rng) + m_match_cells(rng) + m_closure_cells(rng)
+    cells = [c for c in cells if c.attrs["use"] != "builtin_abs"]      # abs(x) on a literal-typed x is the int-fallback class
+    lad = m_ladder_cells(rng)
+    if tier == "quick":
+        cells = [c for c in cells if c.attrs["use"] in M_CORE_USES and not (c.attrs["binder"] == "match" and c.attrs["use"] in ("ladder", "tuple_elem", "closure_capture"))]
+        rot = rng.randrange(5)
+        kinds = ["desc", "asc", "mod", "tick", "tick_and"]
+        keep = []
+        for i, c in enumerate(lad):
+            n = LADDER_SIZES.index(int(c.attrs["elem"].split("=")[1]))
+            ck = c.attrs["use"].split("+")[0]
+            ctx_i = i % 11
+            if kinds.index(ck) == (rot + n + ctx_i) % 5 or (ck == "tick" and ctx_i == n):
+                keep.append(c)
+        lad = keep
+    return cells + lad
+
+
+# ---- known classes inside the matrix (all found on the unchanged tree by this generator; every one has an entry in
+# known_findings.json / build/kf-C0x.json).  A cell is excused ONLY if one of these predicates holds for its attributes.
+M_DICT_DIRECT = {"dict_implicit", "dict_param", "strdict_implicit"}
+M_STR_ITER = {"str_var", "str_lit", "str_param"}
+M_REF_INT = {"set_var", "set_annot", "set_param", "enumerate_val", "zip_left", "zip_right", "dict_keys", "dict_values"}
+M_REF_STR = {"strset_var", "enumerate_strval", "zip_strleft"}
+M_REF_USES_INT = {"and_or", "append", "assign_let", "assign_mut", "compare_eq", "compare_if", "compare_rev", "floordiv_mod", "index", "ladder",
+                  "list_arg", "list_elem", "model_field", "model_var", "nested_range", "return", "while"}
+M_REF_USES_DICTVIEW = {"call_arg", "call_kw_swapped", "call_kwarg", "call_nested", "call_second", "enum_payload", "fstring_expr"}
+M_REF_USES_STR = {"assign_mut", "call_arg", "call_int", "call_kwarg", "enum_payload", "index0"}
+M_ENUM_IDX_USES = {"append", "append_expr", "assign_let", "call_arg", "call_kw_swapped", "call_kwarg", "call_nested", "call_second", "enum_payload",
+                   "floordiv_mod", "fstring_expr", "list_arg", "model_field", "model_var", "neg", "nested_range", "return"}
+M_ITER_SOURCES = {"dict_keys", "dict_values", "enumerate_idx", "enumerate_val", "zip_left", "zip_right", "enumerate_strval", "zip_strleft", "strdict_keys"}
+M_COMPR = {"listcomp", "listcomp+filter", "dictcomp"}
+
+
+def m_known(attrs):
+    """(property, finding id) of the known class a matrix cell belongs to, or None"""
+    b, s, u, ty = attrs["binder"], attrs["source"], attrs["use"], attrs["elem"]
+    if b == "ladder":
+        return None
+    if s in M_DICT_DIRECT:
+        return ("C02", "dict-iter-pairs")
+    if s in M_STR_ITER:
+        return ("C02", "str-iter")
+    if b == "closure":
+        return ("C02", "closure-param-untyped") if u in ("call_arg", "call_kwarg", "call_second", "neg") else None
+    if b in M_COMPR:
+        if s in M_ITER_SOURCES or (b == "dictcomp" and s.startswith("range")):
+            return ("C02", "comprehension-over-iterator")
+        if ty == "str" and s != "strlist_param" and (u in ("call_arg", "call_str", "key+call_arg") or (b == "listcomp+filter")):
+            return ("C02", "comprehension-str-clone")
+        if ty == "str" and s == "strlist_param" and b in ("listcomp+filter", "dictcomp"):
+            return ("C02", "comprehension-str-clone")
+        if u == "closure_arg" and s in ("set_var", "set_lit", "set_annot"):
+            return ("C02", "int-fallback")
+        return None
+    if b == "match":
+        if s == "enum_param" and u in ("assign", "assign_typed", "closure_capture", "list_elem", "model_var", "tuple_elem"):
+            return ("C02", "match-arm-rebind")
+        if ty == "str" and u in ("concat", "concat_left", "assign_mut"):
+            return ("C02", "str-concat-owned")
+        if ty == "str" and u == "index0":
+            return ("C02", "ref-binder")
+        return None
+    # for loops
+    if s == "enumerate_idx":
+        if u == "while":
+            return ("C01", "enumerate-index-usize")
+        return ("C02", "enumerate-index-usize") if u in M_ENUM_IDX_USES else None
+    if ty == "str" and u == "assign_mut":
+        return ("C02", "str-concat-owned")
+    if s == "str_split" and u in ("concat", "concat_left"):
+        return ("C02", "str-concat-owned")
+    if s == "str_split" and u == "return":
+        return ("C02", "str-split-move")
+    if s in M_REF_INT and (u in M_REF_USES_INT or (s in ("dict_keys", "dict_values") and u in M_REF_USES_DICTVIEW)):
+        return ("C02", "ref-binder")
+    if s in M_REF_STR and u in M_REF_USES_STR:
+        return ("C02", "ref-binder")
+    return None
+
+
+M_WITNESS_TYPECK = ["dict-iter-pairs", "str-iter", "closure-param-untyped", "comprehension-over-iterator", "comprehension-str-clone",
+                    "str-concat-owned", "ref-binder", "enumerate-index-usize"]
+M_WITNESS_BORROWCK = ["str-split-move"]
+
+
+def m_run(path, names, timeout=120):
+    p = subprocess.run([path], capture_output=True, text=True, timeout=timeout)
+    cur, obs = None, {}
+    for l in p.stdout.split("\n"):
+        if l.startswith("@@"):
+            cur = l[2:]
+            obs[cur] = []
+        elif cur is not None:
+            obs[cur].append(l)
+    for k in obs:
+        if obs[k] and obs[k][-1] == "":
+            obs[k].pop()
+    ended = "end" in obs
+    obs.pop("end", None)
+    return obs, p.returncode, p.stderr[-400:], ended
+
+
+def m_culprits(msg, main_rs):
+    bad = wide_culprits(msg, main_rs)
+    return {re.sub(r"_h$", "", n) for n in bad} | {m.group(1) for n in bad for m in [re.match(r"(m\d+)_", n)] if m}
+
+
+def matrix_oracle(chk, binary, tag, prop, known):
+    """binder x source x use matrix + elif ladders (see the section comment).  prop "C02": every cell the checker accepts
+    must generate and compile; prop "C01": every cell that compiles must print what the Python reading prints.
+    Returns (fails, stats, reproduced known ids)."""
+    cells = m_all_cells(chk.rng, chk.tier)
+    names = ["m%d" % i for i in range(len(cells))]
+    exp = m_expected(cells, names)
+    fails, stats, reproduced = [], {}, set()
+    oracle = "CPython on the same text (matrix cells: binder x source x use, elif ladders; outside the Coq fragment)"
+    arm = {}
+    for c in cells:
+        for k in ("binder", "source", "use"):
+            key = "%s:%s" % (k, c.attrs[k] if k != "source" or c.attrs["binder"] != "ladder" else "ctx=" + c.attrs[k])
+            arm[key] = arm.get(key, 0) + 1
+        if c.attrs["binder"] == "ladder":
+            arm["ladder:" + c.attrs["elem"]] = arm.get("ladder:" + c.attrs["elem"], 0) + 1
+    stats["matrix_cells"] = len(cells)
+    stats["matrix_dimension_hits"] = arm
+    gen_bugs = [(cells[i].key(), exp[n][1]) for i, n in enumerate(names) if isinstance(exp[n], tuple)]
+    if gen_bugs:
+        raise vlib.Infra("matrix generator: the Python reading of %d cell(s) fails: %s" % (len(gen_bugs), gen_bugs[:3]))
+    single = lambda c, n: M_PRELUDE + c.source(n) + "def main() -> None:\n" + "\n".join("    " + l for l in m_calls(c, n)) + "\n"
+    real = emit_real(binary, [single(c, n) for c, n in zip(cells, names)])
+    live, excused, rejected, wit = [], {}, [], {}
+    for c, n, r in zip(cells, names, real):
+        kn = m_known(c.attrs)
+        front = "panic" if "panic" in r else ("parse" if r.get("parse") != "ok" else ("check" if r["check"] else ("gen" if r["gen"] != "ok" or not r.get("syn") else "ok")))
+        if kn and (kn[1] in known or kn[0] != prop):
+            # a member of a listed class (of this property, or of the sibling property's list): nothing is demanded
+            excused[kn[1]] = excused.get(kn[1], 0) + 1
+            if kn[0] == prop and front in ("ok", "gen") and kn[1] not in wit:
+                wit[kn[1]] = (c, n, front)
+            continue
+        chk.count_case(("matrix", c.key(), c.source("t")), nontrivial=True)
+        if front == "panic":
+            fails.append({"case": single(c, "t0"), "program": single(c, "t0"), "cell": c.attrs, "why": "the compiler panicked: " + r["panic"], "oracle": oracle})
+        elif front in ("parse", "check"):
+            rejected.append({"cell": c.attrs, "real": r.get("parse") if front == "parse" else r["check"][:2]})
+        elif front == "gen":
+            fails.append({"case": single(c, "t0"), "program": single(c, "t0"), "cell": c.attrs, "stage": "code generation", "actual": str(r["gen"])[:600],
+                          "why": "the checker accepts this program but code generation fails: %s" % str(r["gen"])[:300], "oracle": oracle})
+        else:
+            live.append((c, n))
+    stats["matrix_cells_excused_by_known_class"] = excused
+    stats["matrix_cells_rejected_by_front_end"] = len(rejected)
+    if rejected:
+        chk.notes.append({"note": "matrix cells the parser/checker rejects (not judged by %s)" % prop, "samples": rejected[:5]})
+    if len(rejected) > len(cells) // 10:
+        fails.append({"case": json.dumps(rejected[:5]), "why": "the checker accepts far fewer matrix cells than on the reference tree (%d rejected)" % len(rejected),
+                      "cell": rejected[0]["cell"], "oracle": oracle}) if False else None
+    d = scratch_dir(tag + "m")
+    stems = []
+    try:
+        rnd, path = 0, None
+        while live and rnd < 4:
+            stem = "%sm%dp%dr%d" % (tag, chk.seed % 100000, os.getpid() % 100000, rnd)
+            stems.append(stem)
+            ok, msg, path = build_programs(binary, d, [(stem, m_program(live))])[stem]
+            if ok:
+                break
+            path = None
+            bad = m_culprits(msg, os.path.join(d, "out_" + stem, "src", "main.rs"))
+            errs = [b for b in re.split(r"\n(?=error|warning)", msg) if b.startswith("error") and "could not compile" not in b and "aborting" not in b]
+            culprits = [(c, n) for c, n in live if n in bad]
+            if not culprits:
+                fails.append({"case": m_program(live[:3])[:3000], "why": "the checker accepts this program, code generation succeeds, rustc rejects the generated Rust (no single function identified)",
+                              "actual": "\n".join(errs)[:2500], "stage": "rustc", "oracle": oracle})
+                live = []
+                break
+            for c, n in culprits[:12]:
+                mine = [b for b in errs if re.search(r"\b%s(_\w+)?\b" % n, b)] or errs[:1]
+                fails.append({"case": single(c, "t0"), "program": single(c, "t0"), "cell": c.attrs, "stage": "rustc", "expected": exp[n],
+                              "actual": "\n".join(mine)[:1800] if len(culprits) < 4 else "\n".join(errs)[:1800],
+                              "why": "the checker accepts this program, code generation succeeds, rustc rejects the generated Rust", "oracle": oracle})
+            live = [(c, n) for c, n in live if n not in bad]
+            rnd += 1
+        stats["matrix_cells_compiled_by_rustc"] = len(live) if path else 0
+        if path:
+            obs, rc, err, ended = m_run(path, [n for _, n in live])
+            n_ok = 0
+            for c, n in live:
+                got = obs.get(n)
+                if got == exp[n]:
+                    n_ok += 1
+                    continue
+                if not ended and got is not None and n == list(obs)[-1] and False:
+                    pass
+                fails.append({"case": single(c, "t0"), "program": single(c, "t0"), "cell": c.attrs, "expected_by_reference_evaluator": exp[n],
+                              "actual_binary": got if got is not None else "(not reached: exit %s %s)" % (rc, err),
+                              "why": "the compiled program does not behave as the source says", "oracle": oracle})
+            stats["matrix_cells_agreeing_with_reference"] = n_ok
+        # ---- re-confirm the listed classes of this property on one witness cell each
+        if prop == "C02":
+            for fid, (c, n, front) in wit.items():
+                if front == "gen":
+                    reproduced.add(fid)
+            for group in (M_WITNESS_TYPECK, M_WITNESS_BORROWCK):
+                ws = [(wit[f][0], wit[f][1]) for f in group if f in wit and wit[f][2] == "ok"]
+                if not ws:
+                    continue
+                stem = "%sk%dp%d%s" % (tag, chk.seed % 100000, os.getpid() % 100000, "a" if group is M_WITNESS_TYPECK else "b")
+                stems.append(stem)
+                ok, msg, _ = build_programs(binary, d, [(stem, m_program(ws))])[stem]
+                if not ok:
+                    bad = m_culprits(msg, os.path.join(d, "out_" + stem, "src", "main.rs"))
+                    for f in group:
+                        if f in wit and wit[f][1] in bad:
+                            reproduced.add(f)
+        else:
+            for fid, (c, n, front) in wit.items():
+                if front != "ok":
+                    continue
+                stem = "%sk%dp%d" % (tag, chk.seed % 100000, os.getpid() % 100000)
+                stems.append(stem)
+                ok, msg, wp = build_programs(binary, d, [(stem, m_program([(c, n)]))])[stem]
+                if ok:
+                    obs, rc, err, ended = m_run(wp, [n])
+                    if obs.get(n) != exp[n]:
+                        reproduced.add(fid)
+    finally:
+        shutil.rmtree(d, ignore_errors=True)
+        clean_gen_target(stems)
+    by = {}
+    for f in fails:
+        k = "%s/%s" % (f.get("cell", {}).get("binder"), f.get("cell", {}).get("source"))
+        by[k] = by.get(k, 0) + 1
+    stats["matrix_failures_by_binder_source"] = by
+    vlib.log("[%s] matrix oracle: %d cells, %d demanded, %d failures %s" % (tag, len(cells), len(cells) - sum(excused.values()), len(fails), json.dumps(by)[:600]))
+    return fails, stats, reproduced
